@@ -261,8 +261,8 @@ type cache struct {
 }
 
 func (h *DNSHandler) getMDNSCache(mac net.HardwareAddr, id uint16) (c cache, found bool) {
-	h.mutex.RLock()
-	defer h.mutex.RUnlock()
+	h.mutex.Lock() // expired entries are deleted below: needs the write lock
+	defer h.mutex.Unlock()
 	key := make([]byte, 6+2)
 	copy(key, mac)
 	key[6] = byte(id >> 8)
